@@ -20,7 +20,7 @@ import time
 
 VERIF = os.path.dirname(os.path.dirname(os.path.abspath(__file__)))
 REPO = os.environ.get("MSCRIPT_REPO", "/repo")
-CACHE = os.path.join(VERIF, ".cache")
+CACHE = os.environ.get("VERIF_CACHE", os.path.join(VERIF, ".cache"))
 COQ = os.path.join(VERIF, "coq")
 TARGET = os.path.join(CACHE, "target")
 HTARGET = os.path.join(CACHE, "htarget")
@@ -118,7 +118,28 @@ def build_harness(name, release=False, bins=None):
 
 # --------------------------------------------------------------------------- Coq
 
+COQ_HEADER = """-Q . MS
+-arg -w -arg -notation-overridden,-deprecated-hint-without-locality,-deprecated-instance-without-locality
+"""
+
+
+def coq_project():
+    """_CoqProject is generated from the fragments coq/project.d/*.list (one per model family)"""
+    d = os.path.join(COQ, "project.d")
+    txt = COQ_HEADER
+    for f in sorted(os.listdir(d)):
+        if f.endswith(".list"):
+            for l in open(os.path.join(d, f)):
+                l = l.strip()
+                if l and not l.startswith("#"):
+                    txt += l + "\n"
+    cp = os.path.join(COQ, "_CoqProject")
+    if not os.path.exists(cp) or open(cp).read() != txt:
+        open(cp, "w").write(txt)
+
+
 def coq_makefile():
+    coq_project()
     mk = os.path.join(COQ, "Makefile")
     cp = os.path.join(COQ, "_CoqProject")
     if not os.path.exists(mk) or os.path.getmtime(mk) < os.path.getmtime(cp):
